@@ -365,6 +365,15 @@ def r9_formatting_is_the_same_for_every_delimiter(ctx):
              '' if not badc else badc[0])
 
 
+def r10_shared_length_atoms(ctx):
+    """ISA16 is the one delimiter that is validated as a value (length 1/1): its length must be measured on the value
+    itself - for a non-numeric element no character is discounted - or a separator that is a minus sign or a point
+    makes a valid document invalid.  C15.R3 (shared)."""
+    from . import c15
+    for o in c15.r3_sources_and_atoms(ctx):
+        yield o
+
+
 RULES = [
     Rule('C12.R1', 'no literal delimiter on the input path beyond the enumerated, re-verified exemptions', r1_literal_delimiters, floor=3),
     Rule('C12.R2', 'acknowledgement delimiters are literals; the input terminators flow nowhere in the visitors', r2_ack_delimiters, floor=7),
@@ -373,6 +382,7 @@ RULES = [
     Rule('C12.R7', 'Composite.__init__ splits exactly at the separator given, for every separator and text shape (constant propagation)', r7_split_at_the_declared_separator, floor=1),
     Rule('C12.R8', 'shared with C15.R9/C18.R2: the validating modules keep no module/class-level state and cache nothing across calls', r8_no_state_between_documents, floor=8),
     Rule('C12.R9', 'Segment.format / Composite.format give the same layout for every choice of delimiters, template characters included (constant propagation)', r9_formatting_is_the_same_for_every_delimiter, floor=2),
+    Rule('C12.R10', 'shared with C15.R3: length atoms measure the right string (nothing discounted for non-numeric types)', r10_shared_length_atoms, floor=8),
     Rule('C12.R6', 'shared with C13.R1: the character-set recognisers accept every member of their set (any may be a separator, checked as ISA16)', r6_charset_admits_every_delimiter_choice, floor=15),
     Rule('C12.R5', 'no delimiter attribute of a Segment that the reader leaves at its literal default is read on the input path', r5_defaulted_delimiters_not_read, floor=1),
 ]
